@@ -21,4 +21,3 @@ pub mod c09;
 pub mod c10;
 pub mod c12;
 pub mod c13;
-pub mod c17;
